@@ -317,7 +317,91 @@ func runC36Case(boot *pgsim.DB, c c36case) (res c36result) {
 	c36Reads(do, "c36imp", postings, func(api, reader string) func(where, what string) {
 		return read(api, "imported:"+reader)
 	}, &res)
+	c36RunQueries(do, "c36", postings, n, read, &res)
 	return
+}
+
+// c36RunQueries: the same amounts read through stored query templates (POST
+// /v2/{ledger}/queries/{id}/run), last in the case because inserting the schema appends
+// a log. The threshold of the balance template is given as a JSON NUMBER in the request
+// variables, the way a client sends it.
+func c36RunQueries(do func(Req) Resp, ledger string, ps []c36posting, n *big.Int, read func(api, reader string) func(where, what string), res *c36result) {
+	schema := `{"chart":{"world":{},"a":{"$x":{}}},"queries":{` +
+		`"txs":{"resource":"transactions","params":{"expand":["volumes"],"sort":"id:asc"}},` +
+		`"accs":{"resource":"accounts","params":{"expand":["volumes"]}},` +
+		`"vols":{"resource":"volumes"},` +
+		`"rich":{"resource":"accounts","vars":{"min":"int"},"body":{"$gte":{"balance[USD]":"${min}"}}}}}`
+	add := read("v2", "run-query")
+	if r := do(post("/v2/"+ledger+"/schemas/vq", schema)); r.Status != 204 {
+		add("", "inserting the query-template schema answered "+r.short())
+		return
+	}
+	run := func(id, body string) (any, bool) {
+		resp := do(Req{Method: "POST", Path: "/v2/" + ledger + "/queries/" + id + "/run", Query: []KV{{"schemaVersion", "vq"}}, Headers: jsonCT, Body: body})
+		res.reads++
+		if resp.Status != 200 {
+			add("", fmt.Sprintf("run query %s answered %s", id, resp.short()))
+			return nil, false
+		}
+		return decode(resp.Body), true
+	}
+	want := foldVolumes(ps)
+	if b, ok := run("txs", `{}`); ok {
+		for i := range ps {
+			got, ok := exactInt(jat(b, "cursor", "data", i, "postings", 0, "amount"))
+			if !ok || got.Cmp(ps[i].Amt) != 0 {
+				add("", fmt.Sprintf("run query txs: tx %d posting amount = %v, expected %s", i+1, jat(b, "cursor", "data", i, "postings", 0, "amount"), ps[i].Amt))
+			}
+		}
+	}
+	accounts := []string{"a:x", "a:y", "world"}
+	if b, ok := run("accs", `{}`); ok {
+		for i, a := range accounts {
+			checkVolObj(add, "run query accs "+a+" volumes", jat(b, "cursor", "data", i, "volumes", "USD"), want[a])
+		}
+	}
+	if b, ok := run("vols", `{}`); ok {
+		for i, a := range accounts {
+			checkVolObj(add, "run query vols "+a, jat(b, "cursor", "data", i), want[a])
+		}
+	}
+	// balances after the revert of tx 1: a:x = 0, a:y = n, world = -n. Thresholds n and n+1
+	// as JSON numbers: exactly a:y, then nobody.
+	for _, th := range []struct {
+		v    *big.Int
+		want []string
+	}{{n, []string{"a:y"}}, {plus(n, 1), nil}} {
+		if n.Sign() == 0 {
+			break // with n = 0 every balance is 0: nothing to tell apart
+		}
+		b, ok := run("rich", `{"vars":{"min":`+th.v.String()+`}}`)
+		if !ok {
+			continue
+		}
+		var got []string
+		if l, ok := jat(b, "cursor", "data").([]any); ok {
+			for i := range l {
+				got = append(got, fmt.Sprint(jat(l, i, "address")))
+			}
+		}
+		if fmt.Sprint(got) != fmt.Sprint(th.want) {
+			// is it exactly what filtering on the float64 neighbour of the threshold gives (the
+			// recorded finding), or something else (a different defect: its own signature)?
+			f, _ := new(big.Float).SetInt(th.v).Float64()
+			rounded, _ := new(big.Float).SetFloat64(f).Int(nil)
+			var wantRounded []string
+			for _, a := range accounts {
+				if want[a].bal().Cmp(rounded) >= 0 {
+					wantRounded = append(wantRounded, a)
+				}
+			}
+			reader := "run-query-number-variable"
+			if fmt.Sprint(got) == fmt.Sprint(wantRounded) {
+				reader += "-float64-rounded"
+			}
+			read("v2", reader)("", fmt.Sprintf("run query rich with min=%s (JSON number) lists %v, expected %v", th.v, got, th.want))
+		}
+	}
 }
 
 // c36CheckDB reads volumes, moves and postings with raw SQL.
